@@ -15,6 +15,10 @@ pub struct Knobs {
     pub mem_limit: usize,
     pub value_stack: usize,
     pub call_stack: usize,
+    /// Some(L0): the VM is created with limit L0 and then switched to `mem_limit` with
+    /// `RuntimeData::set_memory_limit`, as an embedder does on a VM it already has
+    #[serde(default)]
+    pub limit_from: Option<usize>,
 }
 
 impl Default for Knobs {
@@ -24,6 +28,7 @@ impl Default for Knobs {
             mem_limit: 400 * 1024,
             value_stack: 256,
             call_stack: 256,
+            limit_from: None,
         }
     }
 }
@@ -388,7 +393,10 @@ pub fn read_globals(vm: &Vm<Host>, program: &CaoCompiledProgram) -> BTreeMap<Str
 
 pub fn new_vm(ctl: &VmCtl, knobs: &Knobs, plan: HostPlan) -> Option<Vm<'static, Host>> {
     let mut vm = Vm::new(Host::new(ctl.clone(), plan)).ok()?;
-    vm.runtime_data = RuntimeData::new(knobs.mem_limit, knobs.value_stack.max(1), knobs.call_stack).ok()?;
+    vm.runtime_data = RuntimeData::new(knobs.limit_from.unwrap_or(knobs.mem_limit), knobs.value_stack.max(1), knobs.call_stack).ok()?;
+    if knobs.limit_from.is_some() {
+        vm.runtime_data.set_memory_limit(knobs.mem_limit);
+    }
     vm.max_instr = knobs.budget;
     register_stubs(&mut vm);
     Some(vm)
